@@ -27,20 +27,26 @@ def register(K):
     def nomark():
         return K._nomark
 
-    PRIVATE = z3.Function("PRIVATE", Int, z3.BoolSort())
-    K.private_pred = PRIVATE
+    class _Private:
+        """private(x): no AST node field refers to x (ghost flag list.nodeowned is false)"""
+        def __init__(self):
+            self.st = None
+
+        def __call__(self, r):
+            return z3.Not(z3.Select(self.st.comp("list.nodeowned"), r))
+    PRIVATE = _Private()
 
     @K.spec("private")
     def private(eng, st, x):
         """x is a backing list owned by a Stack / ModuleBody: no AST node field refers to it"""
-        eng.private_pred = PRIVATE
+        PRIVATE.st = st
         return vbool(PRIVATE(eng.as_ref(x, st)))
 
     @K.spec("wf_interp")
     def wf_interp(eng, st, interp):
         """representation invariant of Interpreter: its stack's and module body's backing lists are private and distinct;
         the memo never holds a MarkObject (the VM cannot memoise a mark)"""
-        eng.private_pred = PRIVATE
+        PRIVATE.st = st
         s = eng.spec_value("i.stack._stack", st, {"i": interp})
         b = eng.spec_value("i.module_body._list", st, {"i": interp})
         m = eng.spec_value("i.memory", st, {"i": interp})
